@@ -181,7 +181,7 @@ where
     T: CBOREncodable,
 {
     fn into_envelope(self) -> Envelope {
-        Envelope::new(CBOR::from(self))
+        Envelope::new(CBOR::from(Set::from(self)))
     }
 }
 
